@@ -113,6 +113,18 @@ def hygiene(files=None):
 # --------------------------------------------------------------------------------------------
 
 def _run(cmd, timeout, cwd=None, inp=None):
+  r = _run_once(cmd, timeout, cwd, inp)
+  # a coqc/coqchk that was killed from outside (the kernel's out-of-memory killer on a loaded machine: signal exit
+  # status and no diagnostic at all) says nothing about the development: try again before reporting a failure
+  tries = 0
+  while (r[0] < 0 or r[0] == 137) and not (r[1] + r[2]).strip() and tries < 3:
+    tries += 1
+    time.sleep(3 * tries)
+    r = _run_once(cmd, timeout, cwd, inp)
+  return r
+
+
+def _run_once(cmd, timeout, cwd=None, inp=None):
   try:
     p = subprocess.run(cmd, cwd=cwd, input=inp, capture_output=True, text=True, timeout=timeout)
     return p.returncode, p.stdout, p.stderr
@@ -365,6 +377,10 @@ def _parse_index_list(out):
   return [int(x) for x in re.findall(r'\d+', body.replace('%N', ''))]
 
 
+import threading as _threading
+_RETRY_LOCK = _threading.Lock()
+
+
 def coq_eval(pid, header, case_type, check_fn, terms, shard=300, jobs=16, timeout=900,
              explain_fn=None):
   """Evaluates `check_fn : case_type -> bool` on every term with vm_compute.
@@ -390,8 +406,17 @@ def coq_eval(pid, header, case_type, check_fn, terms, shard=300, jobs=16, timeou
     files.append(p)
 
   def one(p):
-    return _run(['bash', '-c', 'ulimit -s unlimited 2>/dev/null; exec coqc -Q %s Scales %s -o %s' %
-                 (COQ, p, p[:-2] + '.vo')], timeout)
+    cmd = ['bash', '-c', 'ulimit -s unlimited 2>/dev/null; exec coqc -Q %s Scales %s -o %s' % (COQ, p, p[:-2] + '.vo')]
+    r = _run(cmd, timeout)
+    # a coqc that was killed from outside (out-of-memory killer on a loaded machine: negative / 137 exit status and no
+    # diagnostic) says nothing about the model: run that shard again, alone, before giving up
+    tries = 0
+    while r[0] != 0 and r[0] != 124 and not (r[1] + r[2]).strip() and tries < 3:
+      tries += 1
+      time.sleep(2 * tries)
+      with _RETRY_LOCK:
+        r = _run(cmd, timeout)
+    return r
 
   failing = []
   error = None
